@@ -829,6 +829,14 @@ impl KotoVm {
                             _ => KValue::Str(error.to_string().into()),
                         };
 
+                        // The error may have been thrown while the register stack was being
+                        // prepared for a call (e.g. with too few arguments), so ensure that the
+                        // catching frame still has its required number of registers.
+                        if self.registers.len() < self.min_frame_registers {
+                            self.registers
+                                .resize(self.min_frame_registers, KValue::Null);
+                        }
+
                         self.set_register(recover_register, catch_value);
                         self.set_ip(ip);
                     }
